@@ -31,8 +31,9 @@ def run(ctx):
     blocking_mode(ctx, "C06.R6")
     # the header-block buffer cap only bites when the block is not complete after a read: computed from the effective limits
     # it never rejects a block that one more read completes into an accepted one (the clamp table of C12.R1 under C06.R5)
-    from .c12 import clamps
+    from .c12 import clamps, cap_only_without_delimiter
     clamps(ctx, "C06.R5")
+    cap_only_without_delimiter(ctx, "C06.R5")
     ctx.rule("C06.R7", "K3", "(= C07.R1) the unread body of the previous request is discarded completely -- by a loop that reads until nothing is left, however the body is cut across reads -- before the next message is parsed")
     from . import c07
     from .common import MultiAlias
